@@ -13,13 +13,15 @@ import (
 
 // C01 — every implemented instruction has exactly its Z80-defined effect.
 func TestC01Step(t *testing.T) {
-	if len(allEncodings) != 930 {
-		t.Fatalf("HARNESS: model implements %d encodings, expected 930", len(allEncodings))
+	// 930 encodings the pinned tree supports + the 6 undocumented mirrors of RETN (ED 55/5D/65/6D/75/7D), which a tree
+	// need not support (then they are skipped and counted) but must not mistake for something else
+	if len(allEncodings) != 936 {
+		t.Fatalf("HARNESS: model implements %d encodings, expected 936", len(allEncodings))
 	}
 	p := newStepProp("C01", eng.KState, eng.KIff, eng.KFlags, eng.KMemImg, eng.KPortOut, eng.KInvalid)
 	p.col.Sub = "step"
 	defer finish(t, p.col)
-	p.col.Rule = "step: every implemented encoding (930, enumerated) x rapid-drawn pre-state (edge-biased registers, all F, IFF/IM/I/R/HALT), " +
+	p.col.Rule = "step: every encoding of the model (936 = the 930 the pinned tree supports + 6 undocumented RETN mirrors, which are skipped where a tree does not support them; enumerated) x rapid-drawn pre-state (edge-biased registers, all F, IFF/IM/I/R/HALT), " +
 		"operand bytes, hashed or constant memory and port data, 1/3 of cases with pointers aliased onto the instruction / stack / ends of memory; " +
 		"oracle = reference model (full state, flags under the agreed mask, memory image, port output); " +
 		"non-trivial = changes more than PC/R or makes a data/port access; distinct by hash(encoding, pre-state, operands, memory seed)"
